@@ -459,7 +459,12 @@ func makeType(runInfo *runInfoStruct, typeStruct *ast.TypeStruct) reflect.Type {
 		if t == nil {
 			return nil
 		}
-		return reflect.ChanOf(reflect.BothDir, t)
+		if !runInfo.options.Debug {
+			// captures panic (reflect refuses element types that are too large for a channel)
+			defer recoverFunc(runInfo)
+		}
+		t = reflect.ChanOf(reflect.BothDir, t)
+		return t
 	case ast.TypeStructType:
 		var t reflect.Type
 		fields := make([]reflect.StructField, 0, len(typeStruct.StructNames))
